@@ -21,7 +21,7 @@ MANIFEST = {
     "technique": "Coq proof (scanner totality, loop termination) + model/implementation correspondence + isolated execution with time/memory limits",
 }
 
-THEOREMS = ["C01_parse_number_total", "C01_legacy_hex_panics", "C01_attr_loop_terminates", "C01_legacy_attr_loop_diverges"]
+THEOREMS = ["C01_parse_number_total", "C01_legacy_hex_panics", "C01_attr_loop_terminates", "C01_legacy_attr_loop_diverges", "C01_text_decoder_progress"]
 
 
 def _canon(x):
